@@ -121,7 +121,7 @@ def prune_cache(keep=24):
         bins = sorted(glob.glob(os.path.join(CACHE, "bin", "*")), key=os.path.getmtime)
     except OSError:
         return
-    for b in bins[:-80]:
+    for b in bins[:-240]:
         try:
             os.remove(b)
         except OSError:
